@@ -95,6 +95,24 @@ func (g *gen) seedTri() int {
 	return g.dress(k, nv)
 }
 
+// a mesh with vertices but no primitives (an accumulator that is given its vertices first), or with primitives but
+// no vertex data at all
+func (g *gen) seedHollow() int {
+	topo := hx.Pick(g.r, []int{0, 0, 0, 1, 4})
+	if g.r.Chance(2, 3) {
+		op := Op{Op: "new", Topo: topo, Idx: []int{}, Spare: g.spare(), Fn: hx.Pick(g.r, []string{"", "tri"})}
+		if g.r.Bool() {
+			op.Nil, op.Spare = true, 0
+		}
+		return g.dress(g.push(op), g.r.Range(1, 5))
+	}
+	n := g.r.Range(1, 3)
+	if topo == 0 {
+		n *= 3
+	}
+	return g.push(Op{Op: "new", Topo: topo, Idx: g.indices(n, g.r.Range(1, 5)), Spare: g.spare()})
+}
+
 // dress gives member k (no attributes yet) one to four attributes of length nv; returns the last member created
 func (g *gen) dress(k, nv int) int {
 	if k < 0 {
@@ -126,28 +144,85 @@ func (g *gen) dress(k, nv int) int {
 	return k
 }
 
-// a material list whose counts add up to the primitive count of member i (mostly)
+// a material list over the primitives of member i: the primitives are thrown into 1-5 ranges at random, so a range
+// may be EMPTY in any position; half of the time further empty ranges are inserted (front, middle, back, in a row)
 func (g *gen) matsFor(i int) [][2]int {
 	in := g.infos[i]
 	prims := in.nidx
 	if in.topo == 0 {
 		prims = in.nidx / 3
+	} else if in.topo == 2 {
+		prims = in.nidx / 4
 	}
-	var mats [][2]int
-	left := prims
-	for left > 0 && len(mats) < 4 {
-		c := g.r.Range(1, left)
-		if len(mats) == 3 {
-			c = left
+	counts := make([]int, g.r.Range(1, 5))
+	for p := 0; p < prims; p++ {
+		counts[g.r.Intn(len(counts))]++
+	}
+	if g.r.Bool() {
+		for z := g.r.Range(1, 2); z > 0; z-- {
+			pos := g.r.Intn(len(counts) + 1)
+			n := 1 + g.r.Intn(4)/3 // sometimes two in a row
+			for ; n > 0; n-- {
+				counts = append(counts[:pos], append([]int{0}, counts[pos:]...)...)
+			}
 		}
-		mats = append(mats, [2]int{c, g.r.Range(-1, 3)})
-		left -= c
+	}
+	mats := make([][2]int, len(counts))
+	for k, c := range counts {
+		id := g.r.Range(1, 4)
+		if g.r.Chance(1, 12) {
+			id = -1 // no material
+		}
+		mats[k] = [2]int{c, id}
 	}
 	return mats
 }
 
+// hollow: a derivation of member k in which ONE component is empty — no primitives but vertices, no vertices but
+// primitives, an attribute removed, attribute arrays present but empty, no materials.  Binary operations (Append,
+// CopyFloatNAttribute) take shortcuts exactly on such operands.
+func (g *gen) hollow(k int) int {
+	if k < 0 {
+		return -1
+	}
+	in := g.infos[k]
+	switch g.r.Intn(7) {
+	case 0, 1, 2:
+		if g.r.Bool() {
+			return g.push(Op{Op: "setindices", I: k, Nil: true})
+		}
+		return g.push(Op{Op: "setindices", I: k, Idx: []int{}, Spare: g.spare()})
+	case 3:
+		return g.push(Op{Op: "clear", I: k})
+	case 4:
+		if kd, nm, ok := g.someAttr(k, 0); ok {
+			return g.push(Op{Op: "setattr", I: k, K: kd, Name: nm, Data: [][]float64{}, Spare: g.spare()})
+		}
+		return g.push(Op{Op: "setindices", I: k, Nil: true})
+	case 5:
+		kd := 3
+		if len(in.attrs[3]) == 0 {
+			kd = g.r.Range(1, 4)
+		}
+		maps := map[string][][]float64{}
+		for _, nm := range in.attrs[kd] {
+			maps[nm] = [][]float64{}
+		}
+		if len(maps) == 0 {
+			maps[kindNames[kd][0]] = [][]float64{}
+		}
+		return g.push(Op{Op: "setdata", I: k, K: kd, Maps: maps})
+	}
+	if g.r.Bool() {
+		return g.push(Op{Op: "setmaterials", I: k, Nil: true})
+	}
+	return g.push(Op{Op: "setmaterials", I: k, Mats: [][2]int{}, Spare: g.spare()})
+}
+
 func (g *gen) seed() int {
-	switch g.r.Intn(10) {
+	switch g.r.Intn(11) {
+	case 10:
+		return g.seedHollow()
 	case 0, 1, 2, 3, 4:
 		return g.seedTri()
 	case 5:
@@ -268,6 +343,16 @@ func (g *gen) appendOp(i int) bool {
 	if j < 0 || g.r.Chance(1, 6) {
 		j = i
 	}
+	if g.r.Chance(1, 5) && !g.full() {
+		// one operand empty in one component
+		if g.r.Bool() {
+			if h := g.hollow(i); h >= 0 && g.infos[h].uniform {
+				i = h
+			}
+		} else if h := g.hollow(j); h >= 0 && g.infos[h].uniform {
+			j = h
+		}
+	}
 	if g.tooBig(i, j) {
 		return false
 	}
@@ -295,6 +380,8 @@ func (g *gen) step1() {
 		g.appendOp(g.pick(uniform))
 	case w < 30:
 		g.mapOp()
+	case w < 32:
+		g.hollow(g.any())
 	case w < 35: // set an attribute: mostly of the mesh's own length
 		i := g.any()
 		if i < 0 {
@@ -599,60 +686,212 @@ func (g *gen) mapOp() {
 
 // ---- a history -------------------------------------------------------------------------------------------------
 
+// fanIn: ONE operand appended to several receivers (and twice to the same one), receivers that are empty in one
+// component included; the operand and every earlier result are re-read after each step like everything else
+func (g *gen) fanIn() {
+	o := g.pick(func(k int) bool { return g.infos[k].uniform && g.infos[k].nidx > 0 && g.infos[k].nverts > 0 })
+	if o < 0 {
+		o = g.seedTri()
+	}
+	if o < 0 {
+		return
+	}
+	comp := func(k int) bool { return g.infos[k].topo == g.infos[o].topo && g.infos[k].uniform }
+	recv := []int{}
+	for n := g.r.Range(2, 3); n > 0; n-- {
+		b := g.pick(comp)
+		if b < 0 {
+			b = o
+		}
+		switch g.r.Intn(4) {
+		case 0:
+			recv = append(recv, b)
+		case 1:
+			if v := g.variant(b); v >= 0 {
+				recv = append(recv, v)
+			}
+		default:
+			if h := g.hollow(b); h >= 0 && comp(h) {
+				recv = append(recv, h)
+			}
+		}
+	}
+	for _, rcv := range recv {
+		if g.tooBig(rcv, o) {
+			continue
+		}
+		x := g.push(Op{Op: "append", I: rcv, J: o})
+		switch g.r.Intn(4) {
+		case 0:
+			g.push(Op{Op: "append", I: rcv, J: o}) // the same derivation again
+		case 1:
+			g.push(Op{Op: "append", I: o, J: rcv}) // the other way round
+		case 2:
+			if x >= 0 && !g.tooBig(x, o) {
+				g.push(Op{Op: "append", I: x, J: o}) // accumulate
+			}
+		}
+	}
+	g.focus = o
+}
+
+// readerOp: an operation that reads (and must only read) what member i shares with others
+func (g *gen) readerOp(i int) {
+	in := g.infos[i]
+	n := len(g.ops)
+	switch g.r.Intn(12) {
+	case 0, 1, 2:
+		// (a nil *Material is dereferenced by Split, an index count off the triangle grid indexes out of range: crashes
+		// the model does not describe)
+		if in.uniform && (in.nmats < 2 || in.topo != 0 || (in.nidx%3 == 0 && !in.nilMat)) {
+			g.push(Op{Op: "split", I: i})
+		}
+	case 3:
+		g.push(Op{Op: "unweld", I: i, Via: g.r.Chance(1, 4)})
+	case 4:
+		if in.uniform {
+			g.push(Op{Op: "removeunref", I: i, Via: g.r.Chance(1, 4)})
+		}
+	case 5:
+		if _, nm, ok := g.someAttr(i, 3); ok && in.topo == 0 && in.uniform {
+			g.push(Op{Op: "weld", I: i, Name: nm, N: g.r.Range(0, 3)})
+		}
+	case 6:
+		g.push(Op{Op: "flip", I: i, Via: g.r.Chance(1, 3)})
+	case 7:
+		g.push(Op{Op: "export", I: i, Fmt: hx.Pick(g.r, exportFmts)})
+	case 8, 9:
+		g.appendOp(i)
+	case 10:
+		if _, nm, ok := g.someAttr(i, 3); ok && in.topo == 0 && in.uniform && in.idxValid {
+			g.push(Op{Op: hx.Pick(g.r, []string{"slice", "filter"}), Fn: "nullfaces", K: 3, I: i, Name: nm, Vec: []float64{float64(g.r.Range(-3, 12))}})
+		}
+	default:
+		if in.uniform {
+			g.push(Op{Op: "topoints", I: i})
+		}
+	}
+	if len(g.ops) == n {
+		f := g.focus
+		g.focus = i
+		g.step()
+		g.focus = f
+	}
+}
+
+// sharePattern: a base with a material list (empty ranges included), two or three live derivations that SHARE its
+// slices (materials, indices, the untouched attributes), then operations that read those slices
+func (g *gen) sharePattern() {
+	ok := func(k int) bool {
+		in := g.infos[k]
+		return in.uniform && in.topo == 0 && in.nverts > 0 && in.nidx > 0 && in.nidx%3 == 0 && in.idxValid
+	}
+	b := g.pick(ok)
+	if b < 0 {
+		b = g.seedTri()
+	}
+	if b < 0 {
+		return
+	}
+	if g.infos[b].nmats == 0 || g.r.Chance(2, 3) {
+		if k := g.push(Op{Op: "setmaterials", I: b, Mats: g.matsFor(b), Spare: g.spare()}); k >= 0 {
+			b = k
+		}
+	}
+	ds := []int{b}
+	for n := g.r.Range(2, 3); n > 0; n-- {
+		src := hx.Pick(g.r, ds)
+		in := g.infos[src]
+		k := -1
+		switch g.r.Intn(4) {
+		case 0:
+			if in.has(3, "Position") {
+				k = g.push(Op{Op: "map", Fn: "translate", I: src, Vec: g.vec(3, -6, 6)})
+			}
+		case 1:
+			kd := g.r.Range(1, 4)
+			k = g.push(Op{Op: "setattr", I: src, K: kd, Name: hx.Pick(g.r, kindNames[kd]), Data: g.rows(in.nverts, kd), Spare: g.spare()})
+		case 2:
+			k = g.push(Op{Op: "ident", I: src, Fn: "transform0"})
+		default:
+			k = g.push(Op{Op: "setindices", I: src, Idx: g.indices(in.nidx, in.nverts), Spare: g.spare()})
+		}
+		if k >= 0 {
+			ds = append(ds, k)
+		}
+	}
+	for n := g.r.Range(2, 4); n > 0 && !g.full(); n-- {
+		g.readerOp(hx.Pick(g.r, ds))
+	}
+	g.focus = b
+}
+
+// siblings: base = result of >= 2 Appends, then several derivations of base
+func (g *gen) siblings() {
+	r := g.r
+	t := g.pick(func(k int) bool { return g.infos[k].uniform && g.infos[k].nverts > 0 })
+	if t < 0 {
+		t = g.seedTri()
+	}
+	if t < 0 {
+		return
+	}
+	base := t
+	for a := r.Range(2, 3); a > 0 && base >= 0; a-- {
+		other := t
+		if r.Chance(1, 3) {
+			if o := g.pick(func(k int) bool { return g.infos[k].topo == g.infos[t].topo && g.infos[k].uniform }); o >= 0 {
+				other = o
+			}
+		}
+		if g.tooBig(base, other) {
+			break
+		}
+		base = g.push(Op{Op: "append", I: base, J: other})
+	}
+	if base < 0 {
+		return
+	}
+	g.focus = base
+	// operands with different contents: variants of t (same topology and attribute set, other values)
+	others := []int{t}
+	for v := r.Range(1, 2); v > 0; v-- {
+		if u := g.variant(t); u >= 0 {
+			others = append(others, u)
+		}
+	}
+	for s := r.Range(2, 4); s > 0; s-- {
+		if r.Chance(3, 4) {
+			o := others[(s+len(others)-1)%len(others)]
+			if !g.tooBig(base, o) {
+				if r.Chance(1, 5) {
+					g.push(Op{Op: "append", I: o, J: base})
+				} else {
+					g.push(Op{Op: "append", I: base, J: o})
+				}
+			}
+		} else {
+			f := g.focus
+			g.focus = base
+			g.step()
+			g.focus = f
+		}
+	}
+}
+
 func genHistory(r *hx.Rng, maxLen int) histDesc {
 	g := &gen{r: r, focus: -1, max: maxLen}
 	// seeds
 	for n := r.Range(1, 2); n > 0; n-- {
 		g.seed()
 	}
-	// the sibling pattern: base = result of >= 2 Appends, then several derivations of base
-	if r.Chance(3, 4) {
-		t := g.pick(func(k int) bool { return g.infos[k].uniform && g.infos[k].nverts > 0 })
-		if t < 0 {
-			t = g.seedTri()
-		}
-		if t >= 0 {
-			base := t
-			for a := r.Range(2, 3); a > 0 && base >= 0; a-- {
-				other := t
-				if r.Chance(1, 3) {
-					if o := g.pick(func(k int) bool { return g.infos[k].topo == g.infos[t].topo && g.infos[k].uniform }); o >= 0 {
-						other = o
-					}
-				}
-				if g.tooBig(base, other) {
-					break
-				}
-				base = g.push(Op{Op: "append", I: base, J: other})
-			}
-			if base >= 0 {
-				g.focus = base
-				// operands with different contents: variants of t (same topology and attribute set, other values)
-				others := []int{t}
-				for v := r.Range(1, 2); v > 0; v-- {
-					if u := g.variant(t); u >= 0 {
-						others = append(others, u)
-					}
-				}
-				for s := r.Range(2, 4); s > 0; s-- {
-					if r.Chance(3, 4) {
-						o := others[(s+len(others)-1)%len(others)]
-						if !g.tooBig(base, o) {
-							if r.Chance(1, 5) {
-								g.push(Op{Op: "append", I: o, J: base})
-							} else {
-								g.push(Op{Op: "append", I: base, J: o})
-							}
-						}
-					} else {
-						f := g.focus
-						g.focus = base
-						g.step()
-						g.focus = f
-					}
-				}
-			}
-		}
+	switch w := r.Intn(20); {
+	case w < 10:
+		g.siblings()
+	case w < 14:
+		g.fanIn()
+	case w < 18:
+		g.sharePattern()
 	}
 	for guard := 0; !g.full() && guard < 4*maxLen; guard++ {
 		if len(g.pool) == 0 {
@@ -664,6 +903,10 @@ func genHistory(r *hx.Rng, maxLen int) histDesc {
 		}
 		if r.Chance(1, 14) {
 			g.seed()
+			continue
+		}
+		if r.Chance(1, 12) {
+			g.readerOp(g.any())
 			continue
 		}
 		g.step()
